@@ -20,6 +20,9 @@ structure StableOps (P : St → Prop) : Prop where
   glvf : ∀ s v f, P s → P (doGetlineVarFile s v f)
   argv : ∀ s i v, P s → P (s.setArgv i v)
   argc : ∀ s n, P s → P (s.setArgc n)
+  close : ∀ s f, P s → P (s.closeStream f)
+  enter : ∀ s, P s → P s.enterCall
+  leave : ∀ s, P s → P s.leaveCall
 
 /-- … and by the steps of the main loop itself -/
 structure Stable (P : St → Prop) : Prop extends StableOps P where
@@ -50,7 +53,11 @@ theorem execOp_preserves {P : St → Prop} (hP : StableOps P) : ∀ (o : Op) (s 
   | .getlineVar v, s, h => by simp [execOp]; exact hP.glv s v h
   | .getlineFile f, s, h => by simp [execOp]; exact hP.glf s f h
   | .getlineVarFile v f, s, h => by simp [execOp]; exact hP.glvf s v f h
-  | .call body, s, h => by simp [execOp]; exact execOps_preserves hP body s h
+  | .call body, s, h => by
+    simp only [execOp]
+    split
+    · exact h
+    · exact hP.leave _ (execOps_preserves hP body _ (hP.enter s h))
   | .loop n body, s, h => by
     simp [execOp]
     exact iter_preserves _ (fun s hs => execOps_preserves hP body s hs) n s h
@@ -61,6 +68,7 @@ theorem execOp_preserves {P : St → Prop} (hP : StableOps P) : ∀ (o : Op) (s 
     · exact h
   | .setArgv i v, s, h => by simp [execOp]; exact hP.argv s i v h
   | .setArgc n, s, h => by simp [execOp]; exact hP.argc s n h
+  | .close f, s, h => by simp [execOp]; exact hP.close s f h
 theorem execOps_preserves {P : St → Prop} (hP : StableOps P) : ∀ (os : List Op) (s : St), P s → P (execOps os s).2
   | [], s, h => by simp [execOps]; exact h
   | o :: os, s, h => by
